@@ -65,7 +65,7 @@ package cstate
 // Verified aspect: a block enters the cache only after validateBlock accepted it (validation runs while
 // the block is not yet cached).
 //@ aspect func (blockExec *BlockExecutor) ValidateBlock(state LatestBlockState, block *types.Block) (err error)
-//@   for C03 C01 C13
+//@   for C03 C01 C13 C19
 //@   requires blockExec != nil && block != nil
 //@   modifies *
 //@   opt assumecallreqs
@@ -172,3 +172,11 @@ package cstate
 //@   opt assumecallreqs
 //@   atcall saveState requires [writesToTheStoresDatabase] db == s.db
 //@   ensures [everySaveIsWritten] called(saveState)
+
+// A copy of the state copies each validator set from the set of the same name.
+//@ func (state LatestBlockState) Copy() (r LatestBlockState)
+//@   for C02 C01
+//@   requires state.Validators != nil && state.NextValidators != nil && state.LastValidators != nil
+//@   modifies nothing
+//@   ensures [eachSetFromItsNamesake] r.Validators != nil && r.Validators.Proposer == state.Validators.Proposer && len(r.Validators.Validators) == len(state.Validators.Validators) && r.LastValidators != nil && r.LastValidators.Proposer == state.LastValidators.Proposer && len(r.LastValidators.Validators) == len(state.LastValidators.Validators) && r.NextValidators != nil && r.NextValidators.Proposer == state.NextValidators.Proposer && len(r.NextValidators.Validators) == len(state.NextValidators.Validators)
+//@   ensures [scalarsCopied] r.LastBlockHeight == state.LastBlockHeight && r.LastBlockID == state.LastBlockID && r.ChainID == state.ChainID && r.InitialHeight == state.InitialHeight && r.LastHeightValidatorsChanged == state.LastHeightValidatorsChanged
